@@ -418,9 +418,8 @@ class Ctx:
                 if not _affected_term(t, root, kind):
                     continue
                 mp = _pos(m)
-                if any(a is m for a in _anc(use)) and m.get("k") in ("Assign", "AssignOp"):
-                    continue    # read inside the right-hand side of the assignment itself
-                if lp < mp < up:
+                own_rhs = any(a is m for a in _anc(use)) and m.get("k") in ("Assign", "AssignOp")
+                if lp < mp < up and not own_rhs:   # (a read inside the assignment's own right-hand side precedes the write)
                     return False
                 if outer_loops:
                     m_anc = set(id(a) for a in _anc(m))
